@@ -221,7 +221,10 @@ CLAIMED = {
               "(conductivities = arbitrary positive numbers, i.e. whatever the temperature-dependent iteration ended with): "
               "coolant <= clad OD <= MW <= ID for non-negative power, fuel temperatures non-decreasing from the surface to "
               "the centre for any number of shells, film and clad drops equal q/(2 pi r_o h) and q ln(r_o/r_i)/(2 pi k), "
-              "each shell satisfies dT k = qdens d(r^2)/4, zero power gives the coolant temperature everywhere, clad "
+              "each shell satisfies dT k = qdens x (shell constant), where - for annular pellets too (Props/C13Annular.lean, over the reals) - "
+              "the shell constant (r_o^2 - r_i^2)/4 - r_0^2 ln(r_o/r_i)/2 is the one of the steady radial conduction solution for heat "
+              "generated outside the central hole (the profile solves -k T' 2r = q (r^2 - r_0^2)), non-negative and equal to the "
+              "solid-cylinder one without a hole; zero power gives the coolant temperature everywhere, clad "
               "temperatures increase with power for fixed conductivities, and a weighted coolant average with weights "
               "summing to one reproduces a uniform field.  Correspondence: the Lean model (native driver) is run on the data "
               "of generated pin models - shells with their own materials' converged conductivities - and compared with the "
